@@ -44,3 +44,8 @@ claim("C16",
       "Bounded symbolic exploration of the real billstat.RuntimeRecorder (Record, Refresh, resetRecords, remergeRecords) over all histories of records for two devices and upload attempts that succeed or fail, with 0..2 records arriving while the upload is in flight; ghost counters assert delivered + pending = recorded per device after every step, and the solver shows that the pending record's time/ASN/country/protocol (all symbolic) are those of the device's latest query.",
       "Trusted: symgo (sync.Mutex model), uploader stub, z3. In-flight records are serialised inside Upload: the shared state is only touched under the mutex, so every interleaving of the atomic sections equals such a sequence (data races outside the claim). Bounds: 2 devices, 3 (quick) / 5 (thorough) steps; int32 overflow of Queries outside the claim.",
       "DESIGN.md 3 C16")
+
+claim("C17",
+      "Bounded symbolic exploration of the real forward.Handler (ServeDNS, exchange, pickActiveUpstream, Refresh/refresh/healthcheck/healthcheckUpstream/checkUpstream) with stub upstreams whose every exchange outcome (NOERROR, SERVFAIL, net.Error, io.EOF, other error, nil) is an explored choice, symbolic backoff and clock; after every step the active set, the last-failed-probe times and the sequence of exchange calls must equal a reference state machine (backoff boundary decided by the solver), the response written must be the answering upstream's, and failures must surface as errors. validatePlainResponse is decided separately for symbolic IDs/types/names.",
+      "Trusted: symgo (time.Now as harness clock, x/exp/rand.Intn as explored choice), z3. Bounds: 2 main upstreams, 0..1 fallback, 3 (quick) / 4 (thorough) steps; names of <=4 bytes. Outside the claim: sockets, connection pools, timeouts, UDP->TCP retry on truncation (exchangeUDP, not encoded), metrics.",
+      "DESIGN.md 3 C17")
